@@ -483,8 +483,12 @@ func newLockstep(sc *engine.Scenario, res *engine.Result) *lockstep {
 	// themselves events for the OAM-bug machinery
 	{
 		var o [0xa0]byte
+		code := engine.UnHex(sc.Str("oam_code")) // instructions placed in OAM (a guest that runs code from there)
 		for i := range o {
 			o[i] = fr.Byte()
+			if i < len(code) {
+				o[i] = code[i]
+			}
 			l.shadow[0xfe00+i] = o[i]
 		}
 		m.OAM.VerifPoke(o)
@@ -644,7 +648,7 @@ func (l *lockstep) run(maxCycles uint64) {
 		}
 	}
 	m.RunCycles(maxCycles + lsMaxInstrCycles + 1)
-	if m.StoppedOnUndefined && l.res.Harness == "" && l.res.Violation == nil {
+	if m.StoppedOnUndefined && l.res.Harness == "" && l.res.Violation == nil && l.sc.Class != "code-in-oam" {
 		l.res.Harness = fmt.Sprintf("generated program ran into an undefined opcode at %04x", m.CPU.VerifGetRegs().PC)
 	}
 	l.res.Cycles = m.N
